@@ -103,6 +103,8 @@ def canon(v):
     """Canonical text: typed, doubles by bit pattern, map entries sorted."""
     k = v[0]
     if k == 'd':
+        if v[1] != v[1]:
+            return 'dNaN'       # sign and payload of a NaN are not part of the value
         return 'd%016x' % dbits(v[1])
     if k == 'l':
         return 'l[' + ','.join(canon(x) for x in v[1]) + ']'
